@@ -27,7 +27,7 @@ def zeroVal (env : Env) : Nat → Ty → Val
     | .eitherRef t => Val.ctor "L" (zeroVal env fuel t)
     | .refT t => zeroVal env fuel t
     | .prim p => Prim.zero p
-    | .vmStack _ | .dictE _ _ | .dict _ _ => .nil
+    | .vmStack _ | .dictE _ _ | .dict _ _ | .chain _ => .nil
     | .encErr _ | .opaque _ => .nil
 where zeroFields (env : Env) : Nat → Fields → Val
   | 0, _ => .nil
@@ -238,6 +238,15 @@ def decode (env : Env) : Nat → Ty → Slice → Outcome (Val × Slice)
           let ks ← mapMOutcome (fun (kv : Hashmap.Key × Val) =>
             (decode env fuel k { bits := kv.1 }).bind fun r => .ok r.1) kvs
           pure (dictVal ks (kvs.map (·.2)), dictRest n (fun vs => decode env fuel t vs) s)
+    | .chain e => do
+      -- W5ExtendedActions.UnmarshalTLB: an element, then the next reference of the cell if there is one
+      let (x, s1) ← decode env fuel e s
+      match s1.nextRef with
+      | .ok (next, s2) => do
+        let (rest, _) ← decode env fuel (.chain e) (Slice.ofCell next)
+        pure (.cons x rest, s2)
+      | .err _ => pure (.cons x .nil, s1)
+      | .panic p => .panic p
     | .encErr _ => .err "unmodelled"
     | .opaque _ => .err "unmodelled"
 
